@@ -42,7 +42,8 @@ const longVal = "a-much-longer-value-0123456789-0123456789-0123456789-0123456789
 
 // (ids: one a prefix of the other; one with a leading dot, which a back end
 // that maps ids to file names must not treat as hidden)
-var idNames = []string{"a", "ab", ".a"}
+// one that looks like a temporary file of another id
+var idNames = []string{"a", "ab", ".a", "a.tmp"}
 
 func newMsg(t, id, val string) nodeenrollment.MessageWithId {
 	switch t {
@@ -750,7 +751,7 @@ func init() {
 		ID:     "C19",
 		Level:  "model_checking",
 		Binary: "sched",
-		Rule: "sequential: BFS over {store short|long value, remove} x 4 types x ids {a, ab, .a} plus stores under an already cancelled context, nil / typed-nil / unknown-type / empty-id operations on the real inmem, file and store-once back ends (quick depth 3/2, thorough fixpoint/3), state = map model, every transition followed by a full load+list comparison and (states being merged by model contents, which would hide history kept inside a back end) by one further step of each operation on the slot just touched; concurrent: all interleavings (unbounded) of 2 threads x 2 ops and 3 threads x 1 op on the colliding slot ni/a of the in-memory back end under the scheduler, each history checked for linearizability with porcupine; " +
+		Rule: "sequential: BFS over {store short|long value, remove} x 4 types x ids {a, ab, .a, a.tmp} plus stores under an already cancelled context, nil / typed-nil / unknown-type / empty-id operations on the real inmem, file and store-once back ends (quick depth 3/2, thorough fixpoint/3), state = map model, every transition followed by a full load+list comparison and (states being merged by model contents, which would hide history kept inside a back end) by one further step of each operation on the slot just touched; concurrent: all interleavings (unbounded) of 2 threads x 2 ops and 3 threads x 1 op on the colliding slot ni/a of the in-memory back end under the scheduler, each history checked for linearizability with porcupine; " +
 			"states = canonical model states of the sequential search; distinct_nontrivial = sequential states + distinct per-scenario concurrent outcomes",
 		Assumptions: []string{"scheduling points are the lock operations of the in-memory back end (sequential consistency in between); unsynchronised accesses are the race companion's job (sampling)", "the result of removing an absent entry is not constrained (back ends differ, the property is silent)"},
 		Shards:      func(c *engine.Ctx) int { return 16 },
